@@ -48,11 +48,109 @@ def run(ctx):
                     "awaits_inside_arms": [c.name.rsplit("::", 1)[-1] for c in blocked]})
         ctx.note("other awaits inside select! arms (store queries, do not depend on the peer): %s"
                  % sorted({c.name.rsplit("::", 1)[-1] for c in others}))
+    ctx.guarded(lambda: rule_done_inevitable(ctx), "C21.2")
+
+
+def rule_done_inevitable(ctx):
+    """C21.2 — the sending side's Done is inevitable: the counter that decides when Done is sent is initialised with
+    the number of items of the stream of pending log ranges, and every consumed item decrements it exactly once
+    (no path through the sending arm bypasses the decrement, no decrement inside a nested loop).  Otherwise the
+    counter never reaches zero for some store contents (e.g. a log pruned concurrently) and Done is never sent:
+    the peer waits forever."""
+    from facts import Place, op_place
+    from mir import branches_on, edge_dominates, deep_calls, deep_locals
+    b = ctx.body(RUN)
+    users = {p.local for pls in b.vars.values() for p in pls if not p.proj}
+    done_sends = [c for c in sem_calls(b) if c.is_("futures_util::sink::SinkExt::send") and any(
+        rv.get("variant") == "Done" for _, rv in origins(b, c.args[1]).aggs)]
+    # counters: user usize locals K with a test `K == 0` whose true edge dominates a Done send
+    counters = {}
+    for bb, k, pl, rv, st in b.assigns():
+        if rv["k"] == "bin" and rv["op"] == "Eq" and not pl.proj:
+            a, c2 = op_place(rv["a"]), rv["b"]
+            if a is None or not ("const" in c2 and c2["const"].get("int") == 0):
+                continue
+            src = a.local
+            ds = b.defs_of(src)
+            if len(ds) == 1 and ds[0][0] == "assign" and ds[0][3]["k"] == "use":
+                q = op_place(ds[0][3]["op"])
+                if q is not None and not q.proj:
+                    src = q.local
+            if src not in users or b.locals[src]["ty"] != "usize":
+                continue
+            for br in branches_on(b, pl.local, bb):
+                e = br.edge("true")
+                if e and any(edge_dominates(b, e, d.bb) for d in done_sends):
+                    counters[src] = (bb, e)
+    if not ctx.ob("C21.2", "the counter that triggers the Done of the Sync loop", len(counters) == 1,
+                  "anchor-missing: %d usize locals whose `== 0` test guards send(Done) in the Sync loop" % len(counters),
+                  site=b.loc(), trivial=True):
+        return
+    K = list(counters)[0]
+    kname = b.local_name(K) or "_%d" % K
+    # the select! arm that consumes the stream of pending ranges
+    arm = None
+    for s_ in selects(b):
+        for i, br in enumerate(s_.branches):
+            if br is not None and br.is_("futures_util::stream::stream::StreamExt::next") and \
+                    any(n.endswith("stream::iter::iter") or n.endswith("stream::iter") for n in deep_calls(b, br.args[0])):
+                arm = (s_, i, br)
+    if not ctx.ob("C21.2", "select! arm consuming the stream of pending log ranges", arm is not None,
+                  "anchor-missing: no select! branch polling `stream::iter(..).next()`", site=b.loc(), trivial=True):
+        return
+    s_, i, br = arm
+    entry = s_.arms.get(i)
+    # (a) initial value = len() of the collection the stream iterates
+    inits = [d for d in b.defs_of(K) if not (d[0] == "assign" and d[3]["k"] in ("bin",) or
+                                             (d[0] == "assign" and d[3]["k"] == "use" and isinstance(op_place(d[3]["op"]), Place)
+                                              and op_place(d[3]["op"]).proj))]
+    init_ok, init_desc = False, "?"
+    iter_calls = [c for c in sem_calls(b) if c.name.endswith("stream::iter::iter") or c.name.endswith("stream::iter")]
+    for d in b.defs_of(K):
+        if d[0] == "call":
+            nm = d[3]["func"].get("fn", "")
+            init_desc = strip_generics(nm).rsplit("::", 2)[-2] + "::" + strip_generics(nm).rsplit("::", 1)[-1]
+            if strip_generics(nm).endswith("::len") and iter_calls:
+                from mir import trace_back
+                la = op_place(d[3]["args"][0])
+                ia = op_place(iter_calls[0].args[0])
+                if la is not None and ia is not None:
+                    lbase = trace_back(b, la.local)[-1][0]
+                    ibase = trace_back(b, ia.local)[-1][0]
+                    init_ok = lbase == ibase
+    ctx.ob("C21.2", "`%s` starts as the number of items of the stream" % kname, init_ok,
+           "the Done counter `%s` is initialised by `%s`, not by `len()` of the collection handed to stream::iter: it does not "
+           "count the items that the sending arm consumes one by one" % (kname, init_desc), site=b.loc(),
+           key="C21.2:counter-init")
+    # (b) exactly one decrement per consumed item
+    decs = []
+    for bb, k, pl, rv, st in b.assigns():
+        if rv["k"] == "bin" and rv["op"].startswith("Sub"):
+            a = op_place(rv["a"])
+            if a is not None and (a.local == K) and "const" in rv["b"] and rv["b"]["const"].get("int") == 1:
+                decs.append(bb)
+    ctx.floor("C21.2", "decrements of the Done counter", len(decs), 1)
+    if entry is None or not decs:
+        return
+    poll = s_.call.bb
+    region = b.reachable(entry, avoid={poll})
+    bypass = poll in b.reachable(entry, avoid=set(decs)) if poll in b.reachable(entry) else False
+    # leaving the arm without a decrement is only allowed through an error return
+    nested = [d for d in decs if any(d in b.reachable(sx, avoid={poll}) for sx in b.succ(d))]
+    ctx.ob("C21.2", "every consumed item decrements `%s`" % kname, not bypass,
+           "there is a path through the sending select! arm back to the select! that does not decrement `%s` (e.g. a "
+           "`continue` for a log that disappeared from the store): the counter never reaches zero, Done is never sent and "
+           "the remote peer waits forever" % kname, site=b.loc(decs[0]), key="C21.2:decrement-bypassed")
+    ctx.ob("C21.2", "`%s` is decremented once per consumed item (not inside a nested loop)" % kname, not nested,
+           "the decrement of `%s` lies on a cycle inside the arm: it runs a data-dependent number of times per consumed "
+           "item, so the counter does not track the remaining stream items" % kname, site=b.loc(decs[0]),
+           key="C21.2:decrement-in-nested-loop")
+    ctx.sample({"done counter": kname, "init": init_desc, "decrement blocks": [b.loc(d) for d in decs]})
 
 
 MANIFEST = {
     "category": "other",
-    "technique": "await/cancellation model (E5): suspension points inside tokio::select! arms of the Sync loop on the coroutine MIR",
+    "technique": "await/cancellation model (E5): suspension points inside tokio::select! arms of the Sync loop on the coroutine MIR; counter-tracks-stream rule (init = len of the iterated collection, exactly one decrement per consumed item: must-pass + no nested cycle)",
     "text": "Static: decides whether a side can be suspended in a send without simultaneously polling the receive half (the only way two honest peers can wait for each other forever). Shape property, independent of data volume and buffer size.",
     "note": "Trusted: rustc MIR, driver, rule engine; Sink::send completes only when the transport accepted the item.",
 }
